@@ -366,6 +366,14 @@ func (e *Explorer) Explore() {
 		prefix := e.stack[len(e.stack)-1]
 		e.stack = e.stack[:len(e.stack)-1]
 		e.runOne(prefix, true)
+		if e.Stats.Nondeterminism > 0 {
+			// a replayed prefix met other enabled steps than when it was recorded: the harness does not own some
+			// source of nondeterminism of this scenario. The abandoned execution's processes run on unscheduled in the
+			// scenario's directory, so nothing explored after this point could be trusted: the scenario ends here
+			// (reported as not covered by the caller).
+			time.Sleep(300 * time.Millisecond)
+			return
+		}
 	}
 }
 
